@@ -158,7 +158,9 @@ def render(c, directory):
     kinds, names, cols = schema(c)
     n = c["nrows"]
     nan = {(a, b) for a, b in c["nancells"]}
-    path = Path(directory) / ("t%d.%s" % (c["idx"], c["fmt"]))
+    # file names are RE-USED within a worker process (same path, another header a few cases later): nothing that was
+    # learnt about a path may outlive the file
+    path = Path(directory) / ("p%d_t%d.%s" % (os.getpid(), c["idx"] % 3, c["fmt"]))
     if c["fmt"] == "parquet":
         import pyarrow as pa
         import pyarrow.parquet as pq
